@@ -18,7 +18,7 @@ ASSUMPTIONS = ["reference grammar and lexer in vf/refparse.py (cross-checked on 
                "semantic rejections raised inside the parser (literal register size <= 0) and unlisted constructs (branch/case, "
                "'0101' literals, import..as) are outside the grammar clause and not judged"]
 TIERS = {"quick": {"shards": 8, "budget_s": 60}, "thorough": {"shards": 16, "budget_s": 480}}
-REQUIRE = {"entry-points-compared": 2000, "illegal-character-texts-judged": 1500, "mutation:lookalike-digit": 200, "mutation:exotic-character": 500,
+REQUIRE = {"entry-points-compared": 2000, "illegal-character-texts-judged": 1500, "mutation:lookalike-digit": 200, "mutation:same-kind-nesting": 300, "mutation:exotic-character": 500,
            "shards-reducing-every-production-of-the-listed-grammar": 1, "layouts-checked": 2000, "near-misses-judged": 5000, "both-reject:position-checked": 2000,
            "layout:multiple-block-comments": 100, "layout:multiline-block-comment": 50, "layout:line-comment": 200,
            "mutation:truncate": 500, "mutation:header-after-body": 100, "both-accept:tree-compared": 300}
@@ -342,6 +342,28 @@ def entry_points_agree(ctx, text):
         os.rmdir(d)
 
 
+def same_kind_nesting(rng, prog):
+    """A block written directly inside a block of its own kind (the grammar makes sequential and parallel blocks
+    alternate): one child of some block is wrapped in another block of the same kind."""
+    blocks = [b for b in sx.walk(prog) if b is not prog and b[0] in ("sequential_block", "parallel_block") and len(b) > 1]
+    if not blocks:
+        return None
+    target = rng.choice(blocks)
+    i = rng.randrange(1, len(target))
+    new = target[:i] + ((target[0], target[i]),) + target[i + 1:]
+    done = [False]
+
+    def rw(s):
+        if not isinstance(s, tuple):
+            return s
+        if s is target and not done[0]:
+            done[0] = True
+            return new
+        return tuple(rw(x) for x in s)
+
+    return rw(prog)
+
+
 def near_misses(ctx, prog, n):
     rec = ctx.rec
     rng = ctx.rng
@@ -358,8 +380,11 @@ def near_misses(ctx, prog, n):
     hb = header_after_body(rng, prog)
     if hb is not None:
         cases.append(("header-after-body", None))
+    nested = same_kind_nesting(rng, prog)
+    if nested is not None:
+        cases.append(("same-kind-nesting", None))
     for kind, t in cases:
-        text = sx.to_text(hb) if kind == "header-after-body" else render_tokens(t)
+        text = sx.to_text(hb) if kind == "header-after-body" else sx.to_text(nested) if kind == "same-kind-nesting" else render_tokens(t)
         st, fails, info = judge_text(text)
         rec.case(text, nontrivial=len(prog) > 3)
         rec.count("mutation:" + kind)
